@@ -79,6 +79,7 @@ func C15(c *Ctx) {
 
 func C04(c *Ctx) {
 	R4QueueShape(c)
+	R4PivotQueue(c)
 	R4Lockset(c, sharedAgentQueue, 2)
 	R6Issue(c)
 }
@@ -154,6 +155,7 @@ func C03(c *Ctx) {
 	R2Model(c)
 	R2GuardRead(c, "C03")
 	R2Identity(c)
+	R2NameIDFormat(c)
 	R8IDWidth(c)
 }
 
@@ -173,10 +175,12 @@ func C02(c *Ctx) {
 	R8Encrypt(c)
 	R8RequestID(c)
 	R8Terminators(c)
+	R8Pivot(c)
 }
 
 func C08(c *Ctx) {
 	R8IDWidth(c)
+	R4PivotQueue(c)
 	R8Pivot(c)
 	// the relayed callback is gated by the child's own outstanding tasks: they must be recorded for pivot children too
 	R6Issue(c)
